@@ -77,9 +77,43 @@ Theorem db_error_not_cached : forall c s,
         step c s (OTake p t) = (s, mkObs RDbErr 0 1)) /\
      (forall u t, key_down c s (KU u) = false -> lookup (clock s) (cache s) (KU u) = None ->
         step c s (OQri u t) = (s, mkObs RDbErr 1 0)) /\
-     (forall p w keys, step c s (OExec p w keys) = (s, mkObs RDbErr 0 0))).
+     (forall p w keys, step c s (OExec p w keys) = (s, mkObs RDbErr 0 0)) /\
+     (forall p w keys n0, step c s (OExecDie p w keys n0) = (s, mkObs RDbErr 0 0))).
 Proof. exact db_error_lemma. Qed.
 Print Assumptions db_error_not_cached.
+
+(* An invalidation is never skipped.  In ANY state, once the write of an Exec is acknowledged (and
+   for every Del), every key it names is gone from the store or its deletion is a timer of the
+   cleaner - for the plain operations under any outage, and for [OExecDie p w keys n0]: the
+   ExecCtx whose context ends (cancelled / past its deadline) while the first DEL of its
+   invalidation, the one sent to node n0, is on the wire (the DELs go node by node, and key by key
+   on a node of cluster type, so later DELs die with the context). *)
+Theorem invalidation_never_skipped : forall c s,
+  (forall p w keys k, oret (snd (step c s (OExec p w keys))) = ROk -> In k keys ->
+     let s' := fst (step c s (OExec p w keys)) in
+     find k (cache s') = None \/ In k (pending_keys s')) /\
+  (forall keys k, In k keys ->
+     let s' := fst (step c s (ODel keys)) in
+     find k (cache s') = None \/ In k (pending_keys s')) /\
+  (forall p w keys n0 k, oret (snd (step c s (OExecDie p w keys n0))) = ROk -> In k keys ->
+     let s' := fst (step c s (OExecDie p w keys n0)) in
+     find k (cache s') = None \/ In k (pending_keys s')).
+Proof. exact never_skipped_lemma. Qed.
+Print Assumptions invalidation_never_skipped.
+
+(* ... and what exactly the dying context leaves: with node n0 up, the store loses the keys of
+   the DEL that was on the wire ([fst (die_split c keys n0)]: keys of the invalidation living on
+   n0 - all of them, or only the first when the node is of cluster type) and nothing else, and the
+   cleaner gets exactly the timers [snd (die_split c keys n0)]; with n0 down the store is untouched. *)
+Theorem dying_invalidation_exact : forall c keys n0 s,
+  let s' := die_keys c keys n0 s in
+  let first := fst (die_split c keys n0) in
+  (node_down s n0 = false ->
+     cache s' = remove_all first (cache s) /\ pending s' = pending s ++ snd (die_split c keys n0)) /\
+  (node_down s n0 = true -> cache s' = cache s) /\
+  (forall k, In k first -> In k keys /\ node_of c k = n0).
+Proof. exact die_keys_exact. Qed.
+Print Assumptions dying_invalidation_exact.
 
 (* Store errors: an operation whose key lives on a node that is down reports the store's
    error with 0 database queries and changes nothing (also the primary lookup behind an
@@ -373,3 +407,20 @@ Example ex_worlds_fresh :
   /\ all_disciplinedm (init ex_rows) (wproj 0 ex_worlds) = true
   /\ all_disciplinedm (init ex_rows) (wproj 1 ex_worlds) = true.
 Proof. vm_compute. repeat split. Qed.
+
+(* a node of cluster type, three entries cached, an Exec naming three keys whose context ends while
+   the first DEL is on the wire: disciplined; the first key is gone, the two others are owed to the
+   cleaner (dirty: a read may still see them, F7's shape); after one tick everything is fresh *)
+Definition ex_cfg_cl : config := mkCfg (100 * sec) (10 * sec) [] true.
+Definition ex_die : list op :=
+  [OTake 1 100; OQri 7 100; OTake 2 100; OExecDie 1 (Some (7, 42)) [KP 1; KU 7; KP 2] 0].
+Example ex_dying_context :
+  all_disciplined ex_cfg_cl (init ex_rows) (ex_die ++ [OClean 1]) = true /\
+  let s := final ex_cfg_cl (init ex_rows) ex_die in
+  find (KP 1) (cache s) = None /\ dirty s (KP 1) = false /\
+  pending_keys s = [KU 7; KP 2] /\ length (pending s) = 2%nat /\
+  (exists e, find (KU 7) (cache s) = Some e) /\
+  let s' := final ex_cfg_cl (init ex_rows) (ex_die ++ [OClean 1]) in
+  cache s' = [] /\ pending s' = [] /\ db_get 1 (db s') = Some (7, 42) /\
+  snd (step ex_cfg_cl s' (OQri 7 100)) = mkObs (RRow 1 7 42) 1 0.
+Proof. vm_compute. repeat split; eexists; reflexivity. Qed.
